@@ -20,12 +20,20 @@ CLAIMS.update({
  "C14": ("Segment::is_expired is true exactly for a CLOSED segment with a finite expiry whose newest message is older than the expiry, for every timestamp/now/duration; an open segment is full iff size >= max and is never expired; (thorough) the partition names only closed expired segments, never the one being written.",
          "de-asynced twin; the read of the newest message is summarised (its exactness is C02's subject); clock unit conversion stubbed; deletion I/O and restart clauses not covered"),
 })
+CLAIMS.update({
+ "C10": ("Token-expiry clause only: a personal access token is expired exactly when now >= created + expiry (never for NeverExpire/ServerDefault), validity is monotone in time, and the replay-side test that drops expired tokens at restart agrees with the runtime test, for every creation instant, now and duration.",
+         "PersonalAccessToken::{calculate_expiry_at,is_expired,raw}; clock unit conversion stubbed; everything else of C10 (bcrypt password checks, blake3 token digests, login decision table, secrets at rest, JWT) is NOT covered: it needs bcrypt/blake3 or a full System"),
+})
+PENDING = {
+ "C13": "harness file c13_codec.rs exists (8 command round trips) but CBMC exceeds 30 GB on the decoders' wire-length-dependent allocations; not registered until bounded",
+ "C18": "harness file c18_dedup.rs exists (dedup branch of Partition::append_messages, 9 equality patterns) but does not finish within the cap; not registered",
+ "C16": "counter updates of the append step are asserted inside the C01 step harnesses; no separate C16 check (delete/load/purge sites) registered yet",
+}
 NA = {
  "C12": "quantifies over interleavings of tokio tasks, a background persister and lock hand-offs; Kani/CBMC execute one thread and tokio's primitives do not compile under Kani (catch_unwind ICE) - the sequential obligations it rests on are checked under C01/C04 harnesses, not relabelled",
  "C19": "AES-256-GCM is out of reach for bit-blasting at useful sizes and with the cipher stubbed 'no plaintext in any file' says nothing about the cipher; the call placement lives in System::append_messages/poll_messages which need a full System",
  "C20": "IggyProducer/IggyConsumer are tokio tasks, channels, timers and a dyn Client over the network composed with a running server; none of it can be driven without a runtime under Kani",
 }
-PENDING = {}
 
 def main():
     import os
